@@ -228,8 +228,7 @@ Section Sim.
           destruct (copyfileobj St1 rd1 legacy fuel a b r1 []) as [[o1 a1] s1];
           destruct (copyfileobj St2 rd2 legacy fuel a b r2 []) as [[o2 a2] s2] end.
         simpl in *. subst. destruct o2; t3done.
-      + destruct (h_type h =? T_DIR); [|repeat split; apply H].
-        destruct (t_get base t) as [[|]|]; repeat split; apply H.
+      + repeat split; apply H.
     - destruct (isreg (h_type h)).
       + destruct (rel_under base (h_name h)) as [p|]; [|repeat split; apply H].
         destruct (negb _ || t_isdir p t); [repeat split; apply H|].
